@@ -675,6 +675,29 @@ func writeEvidence(w *World, res *checkResult, path string, seed int) {
 	for _, a := range axioms {
 		assumptions = append(assumptions, "axiom "+a)
 	}
+	// contracts of library functions and of interfaces implemented outside the module (or whose in-repo implementation
+	// is not tied to the interface contract by an `implements` clause) are assumed at their call sites
+	assumedC := map[string]bool{}
+	proved := map[string]bool{}
+	for _, fc := range w.cs.Funcs {
+		if fc.Implements != "" {
+			proved[fc.Implements] = true
+		}
+	}
+	for _, f := range res.Funcs {
+		for _, k := range f.Used {
+			if fc, ok := w.cs.Funcs[k]; ok && (fc.Kind == "lib" || fc.Kind == "iface" || fc.Kind == "functype") {
+				label := "assumed " + fc.Kind + " contract: " + shortKey(strings.TrimPrefix(strings.TrimPrefix(k, "iface:"), "functype:"))
+				if proved[k] {
+					label += " (proved for the in-repo implementation that declares `implements`)"
+				}
+				assumedC[label] = true
+			}
+		}
+	}
+	for a := range assumedC {
+		assumptions = append(assumptions, a)
+	}
 	assumptions = append(assumptions, "machine integers: mathematical Int with Go wrap-around modelled by an uninterpreted wrap function outside the type's range")
 	assumptions = append(assumptions, "strings: SMT-LIB strings over bytes; unmodelled string functions are uninterpreted")
 	for fn, a := range res.Abstracted {
